@@ -34,9 +34,15 @@
 // next height like any other: class=immature-reported-mature when findUtxos lists it,
 // class=immature-reserved-unconfirmed-copy when ReserveParticular reserves it (the code before /repo
 // commit 781a2de1 did: findUtxo preferred the unconfirmed copy; corpus-pool-vote-lag is the
-// regression case).  Outputs handed out
-// with useUnconfirmed = true that are not on the wallet's chain are what the caller asked for: counted
-// (obs:unconfirmed-offer-not-on-chain, ...-is-vote-output), not judged.
+// regression case).  Outputs handed out with useUnconfirmed = true that are not on the wallet's chain
+// are what the caller asked for as long as they exist somewhere: once the wallet has handled every
+// message the pool has posted (a late removal message explains a stale copy), such an output must be
+// created by a transaction that is in the node's pool at that moment - otherwise
+// class=spent-or-unknown-output-offered (findUtxos, Reserve by amount for everything offered,
+// ReserveParticular; ./check C26 reports the two reserving calls too).  Corpus case
+// corpus-pool-spent-later; every pool case ends with an observation after all messages have been
+// handled.  Still only counted: a vote output that only the pool knows is offered for a veto
+// (obs:unconfirmed-offer-not-on-chain-is-vote-output).
 //
 // Direct oracle (implementation outputs only), after EVERY delivery, for every usable record:
 // the REAL state.UtxoViewpoint applied to the chain the wallet is attached to must hold the output
@@ -85,7 +91,7 @@ func coqObs25(d wsim.Deliv) string {
 func run(c *Ctx) error {
 	c.Stats.Rule = "a case counts as non-trivial when the wallet detached at least one block (outputs may have been restored); distinct = distinct (kind, schedule, seed)"
 	var cases []*wsim.Case
-	for _, k := range []string{"corpus-pool-vote-lag", "corpus-cb-unspend-down", "corpus-vote-unspend-down", "corpus-vote-detach"} {
+	for _, k := range []string{"corpus-pool-vote-lag", "corpus-pool-spent-later", "corpus-cb-unspend-down", "corpus-vote-unspend-down", "corpus-vote-detach"} {
 		cases = append(cases, &wsim.Case{ID: len(cases), Seed: 1, Kind: k})
 	}
 	cases = append(cases, &wsim.Case{ID: len(cases), Seed: 1, Kind: "corpus-step-schedule", Sched: "step"})
